@@ -1,6 +1,7 @@
 package main
 
 import (
+	"math/bits"
 	"fmt"
 	"os"
 	"path/filepath"
@@ -43,6 +44,30 @@ func feeClass(ppk uint) string { return fmt.Sprintf("ppk%d", ppk) }
 // sendMonitor (C18, end to end): what Send hands over is worth exactly the requested amount to the recipient — the
 // proofs sum to `amount` without includeFees, and to `amount` + exactly the input fee the mint will charge for THESE
 // proofs (ceil of the sum of their keysets' ppk / 1000) with includeFees.
+// receiveMonitor (C17): a token received at its own mint is credited with its face value minus exactly the input fee the
+// mint charges for its proofs (by their keysets' ppk) — nothing is left behind in the swap.
+func (hw *histWorld) receiveMonitor(t *bToken, got uint64) {
+	m := hw.b.mints[t.mint]
+	ppkOf := map[string]uint{}
+	for _, k := range m.env.M.ListKeysets().Keysets {
+		ppkOf[k.Id] = k.InputFeePpk
+	}
+	var sum, ppkSum uint64
+	for _, p := range t.proofs {
+		sum += p.Amount
+		ppkSum += uint64(ppkOf[p.Id])
+	}
+	want := sum - (ppkSum+999)/1000
+	if got != want {
+		dir := "less"
+		if got > want {
+			dir = "more"
+		}
+		hw.c.MonitorFail("C17", "C17/receive/credited-"+dir+"-than-value-minus-mint-fee",
+			fmt.Sprintf("Receive of a token worth %d (%d proofs, mint input fee %d) credited %d", sum, len(t.proofs), (ppkSum+999)/1000, got), hw.b.replay())
+	}
+}
+
 func (hw *histWorld) sendMonitor(m *bMint, amount uint64, fees bool, t *bToken) {
 	if t == nil {
 		return
@@ -257,6 +282,9 @@ func (hw *histWorld) step() {
 			b.hint = "C17/swapToTrusted/sigall-proofs-dropped-on-unpaid-melt"
 		}
 		got, err := b.OpReceive(rc, t, swapToTrusted, strip)
+		if err == nil && !swapToTrusted {
+			hw.receiveMonitor(t, got)
+		}
 		b.setScript(tmint)
 		hw.model.receive(hw, rc, t, swapToTrusted, strip, outcome, got, err)
 		b.pruneTokens()
@@ -419,7 +447,7 @@ func runWalletHist(c *Ctx) {
 	for h := 0; h < n; h++ {
 		runHistory(c, h)
 	}
-	for k := 0; k < 4; k++ {
+	for k := 0; k < 8; k++ {
 		rotationNoticedBy(c, k)
 	}
 	longRun(c, 0)
@@ -618,7 +646,17 @@ func restoreContinueRestore(hw *histWorld, nOut int, tag string) {
 // look for a blinded message submitted twice.
 func rotationNoticedBy(c *Ctx, k int) {
 	first := []string{"send-swap", "melt", "mint", "receive"}[k%4]
-	hw, err := newHistWorld(c, "rot-"+first, []uint{0}, 2)
+	// k >= 4: the rotation also changes the input fee, and sends ask for includeFees (the fee of the recipient's proofs
+	// is the NEW keyset's; inputs of the old keyset are charged the OLD keyset's fee)
+	f0, f1, withFees := uint(0), uint(0), false
+	if k >= 4 {
+		f0, f1, withFees = 100, 500, true
+		if first == "receive" {
+			f0, f1 = 0, 1000
+		}
+		first += "+fee"
+	}
+	hw, err := newHistWorld(c, "rot-"+first, []uint{f0}, 2)
 	if err != nil {
 		c.Disagree([]string{"C19"}, "setup-rot", err.Error(), "", nil)
 		return
@@ -635,9 +673,12 @@ func rotationNoticedBy(c *Ctx, k int) {
 		hw.after("rot/" + first + "/" + tag + "/" + errTag(err))
 	}
 	sendN := func(x *bWallet, amt uint64, tag string) *bToken {
-		b.begin("send", x.idx, fmt.Sprintf("send w%d m%d %d fees=false", x.idx, m.idx, amt))
-		t, err := b.OpSend(x, m, amt, false)
-		hw.model.send(hw, x, m, amt, false, t, err)
+		b.begin("send", x.idx, fmt.Sprintf("send w%d m%d %d fees=%v", x.idx, m.idx, amt, withFees))
+		t, err := b.OpSend(x, m, amt, withFees)
+		hw.model.send(hw, x, m, amt, withFees, t, err)
+		if err == nil {
+			hw.sendMonitor(m, amt, withFees, t)
+		}
 		hw.after("rot/" + first + "/" + tag + "/" + errTag(err))
 		return t
 	}
@@ -671,7 +712,8 @@ func rotationNoticedBy(c *Ctx, k int) {
 	}
 	x := uint64(0)
 	for v := uint64(1); v < total; v++ {
-		if !reach[v] {
+		// (two or more coins for the recipient: with includeFees the fee of count+1 proofs differs between fee rates)
+		if !reach[v] && !reach[v+1] && !reach[v+2] && bits.OnesCount64(v) >= 2 {
 			x = v
 			break
 		}
@@ -680,12 +722,19 @@ func rotationNoticedBy(c *Ctx, k int) {
 		c.Res.Notes = append(c.Res.Notes, "rotationNoticedBy: every amount is an exact subset sum, scenario "+first+" runs with amount 3")
 		x = 3
 	}
-	b.begin("rotate", -1, "rotate m0 fee=0")
-	b.OpRotate(m, 0)
-	hw.model.rotate(hw, m, 0)
+	b.begin("rotate", -1, fmt.Sprintf("rotate m0 fee=%d", f1))
+	b.OpRotate(m, f1)
+	m.env.Opts.FeePpk = f1
+	hw.model.rotate(hw, m, f1)
 	hw.after("rot/" + first + "/rotate")
-	switch first {
+	switch strings.TrimSuffix(first, "+fee") {
 	case "send-swap":
+		if withFees {
+			// an ordinary send with includeFees whose amount no subset of the coins adds up to: swapToSend prices the
+			// recipient's proofs
+			sendN(w, x, "first-after-rotation")
+			break
+		}
 		// a locked send always goes through swapToSend, whatever coins the wallet holds
 		b.begin("send-locked", w.idx, fmt.Sprintf("sendlocked w%d m%d to=w%d %d sigall=false fees=false", w.idx, m.idx, w2.idx, x))
 		t, err := b.OpSendLocked(w, m, w2, x, false, false)
@@ -709,6 +758,9 @@ func rotationNoticedBy(c *Ctx, k int) {
 		if tok != nil {
 			b.begin("receive-same", w.idx, fmt.Sprintf("receive w%d tok%d", w.idx, tok.id))
 			got, err := b.OpReceive(w, tok, false, true)
+			if err == nil {
+				hw.receiveMonitor(tok, got)
+			}
 			hw.model.receive(hw, w, tok, false, true, "paid", got, err)
 			b.pruneTokens()
 			hw.after("rot/" + first + "/first-after-rotation/" + errTag(err))
@@ -801,6 +853,9 @@ func (hw *histWorld) stepFor(w *bWallet) {
 		}
 		b.begin("receive-same", rc.idx, fmt.Sprintf("receive w%d tok%d", rc.idx, t.id))
 		got, err := b.OpReceive(rc, t, false, true)
+		if err == nil {
+			hw.receiveMonitor(t, got)
+		}
 		hw.model.receive(hw, rc, t, false, true, "paid", got, err)
 		b.pruneTokens()
 		hw.after(fmt.Sprintf("receive-same/%s/%s", errTag(err), feeClass(ppk)))
